@@ -149,7 +149,7 @@ func TestVerif_C15_LedgerPairs(t *testing.T) {
 			}
 		}()
 		for i := 1; i < len(variants); i++ {
-			nodes = append(nodes, cpxAddNode(w, rt, fmt.Sprintf("fork%d", i), spec, true, true))
+			nodes = append(nodes, cpxAddNode(w, rt, fmt.Sprintf("fork%d", i), spec, true, cpxStoreMem))
 		}
 		shared := func(kind string, tx *txntest.Txn) {
 			b := w.BeginBlock(rt)
